@@ -4,6 +4,7 @@ from vlib import common as C
 from vlib.diff import Case, differential, run_batch, san_site
 
 LEVEL = "proof"
+MODELLED_FUNCS = {'src/json/iwjser.c': ['_jbl_unescape_json_string', '_jbl_parse_json_key'], 'src/json/iwjson.c': ['_jbl_ptr_pool', 'iwjson_ftoa'], 'src/utils/iwconv.c': ['iwitoa', 'iwatoi2', 'iwafcmp', 'iwhex2bin'], 'src/re/vm.c': ['vm_add_thread', 'vm_run_with_threads']}
 MANIFEST = dict(
     level="proof",
     text=("PARTIAL. Proved (Lean 4, all inputs): bounds-instrumented executable models of _jbl_unescape_json_string (both passes), "
